@@ -518,7 +518,10 @@ def keyGet3 (k p v : Str) : Out Str :=
     | none => .ok []
     | some caps => if pickOverrun v names caps then .outside else .ok (pickGroup v names caps)
 
-/-! ## ip_match (IPv4) -/
+/-! ## ip_match (IPv4 and IPv6)
+
+`ipaddress.ip_address(ip1)`, `ipaddress.ip_network(ip2, strict=False)`, `ip1 in network` of CPython 3.12, transcribed
+function by function. `none` = `AddressValueError` / `NetmaskValueError` (both are `ValueError`s). -/
 
 def splitOn (sep : Char) : Str → List Str
   | [] => [[]]
@@ -554,35 +557,243 @@ def parseV4 (s : Str) : Option Nat :=
      | _, _, _, _ => none)
   | _ => none
 
-/-- `IPv4Network._prefix_from_prefix_string`; `none` = `NetmaskValueError` -/
-def parsePrefix (s : Str) : Option Nat :=
+/-- `_prefix_from_prefix_string` for a family whose `_max_prefixlen` is `w`: ASCII digits only (no sign, no blank,
+    not empty; leading zeros are accepted by `int`), `0 ≤ value ≤ w`; `none` = `NetmaskValueError` -/
+def parsePrefixW (w : Nat) (s : Str) : Option Nat :=
   if s.isEmpty || !s.all isAsciiDigit then none
   else
     let v := digitsVal s 0
-    if v > 32 then none else some v
+    if v > w then none else some v
 
-/-- `addr & netmask` for a prefix length: clear the low `32 - len` bits -/
-def maskTo (len : Nat) (x : Nat) : Nat := x - x % 2 ^ (32 - len)
+/-- `IPv4Network._prefix_from_prefix_string` -/
+def parsePrefix (s : Str) : Option Nat := parsePrefixW 32 s
 
-/-- `ip_match(ip1, ip2)` for dotted-quad `ip1` and `ip2` = dotted quad with an optional `/prefixlen`.
-    Strings containing ':' (IPv6) and dotted netmasks / hostmasks after '/' are outside the model. -/
+/-- `IPv6Network._prefix_from_prefix_string` (`_BaseV6._make_netmask` accepts nothing else: no netmask / hostmask
+    spelling exists for IPv6) -/
+def parsePrefix6 (s : Str) : Option Nat := parsePrefixW 128 s
+
+/-- value of one character of `_BaseV6._HEX_DIGITS = frozenset('0123456789ABCDEFabcdef')`; `none` = not in the set -/
+def hexVal (c : Char) : Option Nat :=
+  if '0' ≤ c && c ≤ '9' then some (c.toNat - '0'.toNat)
+  else if 'a' ≤ c && c ≤ 'f' then some (c.toNat - 'a'.toNat + 10)
+  else if 'A' ≤ c && c ≤ 'F' then some (c.toNat - 'A'.toNat + 10)
+  else none
+
+def isHexDigit (c : Char) : Bool := (hexVal c).isSome
+
+/-- `int(s, 16)` for a string of hex digits -/
+def hexDigitsVal : Str → Nat → Nat
+  | [], acc => acc
+  | c :: s, acc => hexDigitsVal s (acc * 16 + (hexVal c).getD 0)
+
+/-- `_BaseV6._parse_hextet`: only the 22 ASCII hex digits, at most 4 of them; the empty text fails in `int('', 16)`.
+    `none` = `ValueError` -/
+def parseHextet (s : Str) : Option Nat :=
+  if !s.all isHexDigit then none
+  else if s.length > 4 then none
+  else if s.isEmpty then none
+  else some (hexDigitsVal s 0)
+
+/-- one element of the list `parts` of `_ip_int_from_string`: a piece of the text between two colons, or one of the
+    two hextets `'%x' % …` that replace a dotted-quad suffix (the rendering is not modelled: such a part is not
+    empty and `_parse_hextet` gives the number back) -/
+inductive Part where
+  | txt (s : Str)
+  | num (v : Nat)
+  deriving DecidableEq, Repr
+
+/-- `not parts[i]` -/
+def Part.isEmpty : Part → Bool
+  | .txt s => s.isEmpty
+  | .num _ => false
+
+/-- `cls._parse_hextet(parts[i])` -/
+def Part.val : Part → Option Nat
+  | .txt s => parseHextet s
+  | .num v => some v
+
+/-- the two loops `ip_int <<= 16; ip_int |= cls._parse_hextet(parts[i])` (a hextet is below 2^16, so `|` adds) -/
+def hextets (acc : Nat) : List Part → Option Nat
+  | [] => some acc
+  | p :: ps =>
+    match p.val with
+    | none => none
+    | some v => hextets (acc * 65536 + v) ps
+
+/-- the parts before the first empty part and, if there is one, the parts after it -/
+def breakEmpty : List Part → List Part × Option (List Part)
+  | [] => ([], none)
+  | p :: ps =>
+    if p.isEmpty then ([], some ps)
+    else ((p :: (breakEmpty ps).1), (breakEmpty ps).2)
+
+/-- `_BaseV6._ip_int_from_string` from the length check `len(parts) > _max_parts` on. `first`, `middle`, `last` =
+    `parts[0]`, `parts[1:-1]`, `parts[-1]` (there are at least three parts). An empty part in the middle is `::`
+    (`skip_index`), a second one is an error; with `::` an empty first (last) part is allowed only directly before
+    (after) it, and at least one hextet must be skipped; without `::` exactly 8 non-empty parts. -/
+def parseV6Parts (first : Part) (middle : List Part) (last : Part) : Option Nat :=
+  if middle.length + 2 > 9 then none
+  else match breakEmpty middle with
+    | (_, none) =>
+      if middle.length + 2 != 8 then none
+      else if first.isEmpty then none
+      else if last.isEmpty then none
+      else hextets 0 (first :: middle ++ [last])
+    | (h, some l) =>
+      if l.any Part.isEmpty then none                       -- "At most one '::' permitted"
+      else if first.isEmpty && !h.isEmpty then none         -- "Leading ':' only permitted as part of '::'"
+      else if last.isEmpty && !l.isEmpty then none          -- "Trailing ':' only permitted as part of '::'"
+      else
+        let hi := if first.isEmpty then [] else first :: h
+        let lo := if last.isEmpty then [] else l ++ [last]
+        if hi.length + lo.length > 7 then none              -- `parts_skipped < 1`
+        else
+          match hextets 0 hi with
+          | none => none
+          | some x => hextets (x * 65536 ^ (8 - (hi.length + lo.length))) lo
+
+/-- `(first, middle, last)` of a list with at least two elements -/
+def ends : List Part → Option (Part × List Part × Part)
+  | [] => none
+  | [_] => none
+  | p :: q :: r =>
+    match ends (q :: r) with
+    | none => some (p, [], q)                 -- `r = []`
+    | some (q', m, l) => some (p, q' :: m, l)
+
+/-- `_BaseV6._ip_int_from_string`: not empty, at least three colon-separated parts (counted BEFORE a dotted-quad
+    suffix is replaced), a last part containing '.' must be an IPv4 address and becomes two hextets -/
+def parseV6Core (s : Str) : Option Nat :=
+  if s.isEmpty then none
+  else
+    let ps := splitOn ':' s
+    if ps.length < 3 then none
+    else
+      let lastS := ps.getLast?.getD []
+      let parts : Option (List Part) :=
+        if lastS.contains '.' then
+          (match parseV4 lastS with
+           | none => none
+           | some v => some (ps.dropLast.map Part.txt ++ [Part.num (v / 65536 % 65536), Part.num (v % 65536)]))
+        else some (ps.map Part.txt)
+      match parts with
+      | none => none
+      | some parts =>
+        match ends parts with
+        | none => none
+        | some (f, m, l) => parseV6Parts f m l
+
+/-- `IPv6Address._split_scope_id`: `addr, sep, scope_id = ip_str.partition('%')`; an empty zone or a second '%' is
+    an error. Answers the address part (the zone takes no part in `in`). -/
+def splitScope (s : Str) : Option Str :=
+  match splitOn '%' s with
+  | [a] => some a
+  | [a, z] => if z.isEmpty then none else some a
+  | _ => none
+
+/-- `IPv6Address(s)._ip`; `none` = `AddressValueError` -/
+def parseV6 (s : Str) : Option Nat :=
+  if s.contains '/' then none          -- "Unexpected '/'"
+  else match splitScope s with
+    | none => none
+    | some addr => parseV6Core addr
+
+/-- address family; `width` = `_max_prefixlen` -/
+inductive Fam | v4 | v6
+  deriving DecidableEq, Repr
+
+def Fam.width : Fam → Nat
+  | .v4 => 32
+  | .v6 => 128
+
+/-- `ipaddress.ip_address(s)`: `IPv4Address(s)`, on failure `IPv6Address(s)`; `none` = `ValueError` -/
+def parseAddr (s : Str) : Option (Fam × Nat) :=
+  match parseV4 s with
+  | some x => some (.v4, x)
+  | none =>
+    match parseV6 s with
+    | some x => some (.v6, x)
+    | none => none
+
+/-- `addr & netmask` for a prefix length in a family of width `w`: clear the low `w - len` bits -/
+def maskTo (w len : Nat) (x : Nat) : Nat := x - x % 2 ^ (w - len)
+
+/-- `_prefix_from_ip_int`: the 32-bit number is `len` ones followed by zeros; `none` = `ValueError`
+    ("mixes zeroes & ones") -/
+def prefixFromInt (v : Nat) : Option Nat :=
+  (List.range 33).find? (fun len => v == 2 ^ 32 - 2 ^ (32 - len))
+
+/-- `IPv4Network._prefix_from_ip_string`: the mask text is parsed like an address; a netmask (ones then zeros, the
+    all-zero and all-one words count as netmasks), else after `ip_int ^= _ALL_ONES` (= `2^32 - 1 - v`, the number is
+    below 2^32) a hostmask (zeros then ones) -/
+def prefixFromDotted (m : Str) : Option Nat :=
+  match parseV4 m with
+  | none => none
+  | some v =>
+    match prefixFromInt v with
+    | some len => some len
+    | none => prefixFromInt (4294967295 - v)
+
+/-- `IPv4Network._make_netmask` on a text: a prefix length, else a dotted netmask / hostmask -/
+def parseMask4 (m : Str) : Option Nat :=
+  match parsePrefix m with
+  | some len => some len
+  | none => prefixFromDotted m
+
+/-- `IPv4Network(b, strict=False)`: `_split_optional_netmask` (at most one '/'), the address, then the mask;
+    answers (address as written, prefix length), `none` = `AddressValueError` / `NetmaskValueError` -/
+def parseNet4 (b : Str) : Option (Nat × Nat) :=
+  match splitOn '/' b with
+  | [addr] =>
+    (match parseV4 addr with
+     | none => none
+     | some y => some (y, 32))
+  | [addr, m] =>
+    (match parseV4 addr with
+     | none => none
+     | some y =>
+       match parseMask4 m with
+       | some len => some (y, len)
+       | none => none)
+  | _ => none
+
+/-- `IPv6Network(b, strict=False)`; the network part may carry a zone (`IPv6Address(addr)` accepts it, the masked
+    network address drops it); the mask is a prefix length, nothing else (`_BaseV6._make_netmask`) -/
+def parseNet6 (b : Str) : Option (Nat × Nat) :=
+  match splitOn '/' b with
+  | [addr] =>
+    (match parseV6 addr with
+     | none => none
+     | some y => some (y, 128))
+  | [addr, m] =>
+    (match parseV6 addr with
+     | none => none
+     | some y =>
+       match parsePrefix6 m with
+       | some len => some (y, len)
+       | none => none)
+  | _ => none
+
+/-- `ip_match(ip1, ip2)`: `ip_address(ip1)` raises outside the `try`; `ip_network(ip2, strict=False)` tries
+    `IPv4Network`, then `IPv6Network`; `ip1 in network` is `False` for different versions, else
+    `ip1._ip & netmask == network_address._ip` (the network address is already masked, `strict=False`);
+    an invalid pattern gives `ip1 == ip2`, an address object against a `str`: `False`.
+    Nothing is left outside the model (`Out.outside` is never answered). -/
 def ipMatch (a b : Str) : Out Bool :=
-  if a.contains ':' || b.contains ':' then .outside
-  else match parseV4 a with
-    | none => .err .valueError            -- `ipaddress.ip_address(ip1)` raises, outside the `try`
-    | some x =>
-      match splitOn '/' b with
-      | [addr] =>
-        (match parseV4 addr with
-         | none => .ok false              -- ValueError -> `ip1 == ip2` (an address object vs a str): False
-         | some y => .ok (x == y))
-      | [addr, m] =>
-        (match parseV4 addr with
-         | none => .ok false
-         | some y =>
-           match parsePrefix m with
-           | some len => .ok (maskTo len x == maskTo len y)
-           | none => if (parseV4 m).isSome then .outside else .ok false)
-      | _ => .ok false
+  match parseAddr a with
+  | none => .err .valueError
+  | some (f, x) =>
+    match parseNet4 b with
+    | some (y, len) =>
+      (match f with
+       | .v4 => .ok (maskTo 32 len x == maskTo 32 len y)
+       | .v6 => .ok false)
+    | none =>
+      match parseNet6 b with
+      | some (y, len) =>
+        (match f with
+         | .v4 => .ok false
+         | .v6 => .ok (maskTo 128 len x == maskTo 128 len y))
+      | none => .ok false
 
 end Casbin.Builtin
